@@ -22,6 +22,7 @@ import traceback
 import pytz
 
 import taskiq.cli.scheduler.run as run
+import patchall
 from taskiq.scheduler.scheduled_task import CronSpec, ScheduledTask
 
 EP = dt.datetime(1970, 1, 1, tzinfo=dt.timezone.utc)
@@ -60,6 +61,7 @@ class VDT(dt.datetime):
 
 def setup(opts):
     run.datetime = VDT
+    patchall.replace_everywhere(dt.datetime, VDT)   # wherever else the package reads the clock
 
 
 def td_us(d):
